@@ -22,6 +22,7 @@ def ratA : AOps Rat :=
     log := fun _ => none
     sqrt := fun _ => none
     conj := id
+    absv := fun x => if x < 0 then -x else x
     ofRat := id
     toNat := ratToNat
     le := fun a b => some (decide (a ≤ b))
@@ -55,6 +56,7 @@ def gaussA : AOps GaussRat :=
     log := fun _ => none
     sqrt := fun _ => none
     conj := GaussRat.conj
+    absv := fun a => ⟨(if a.re < 0 then -a.re else a.re) + (if a.im < 0 then -a.im else a.im), 0⟩
     ofRat := fun q => ⟨q, 0⟩
     toNat := fun a => if a.im = 0 then ratToNat a.re else none
     le := fun _ _ => none
@@ -80,6 +82,7 @@ def dualA : AOps Dual :=
     log := fun _ => none
     sqrt := fun _ => none
     conj := id
+    absv := fun a => ⟨(if a.v < 0 then -a.v else a.v), (if a.d < 0 then -a.d else a.d)⟩
     ofRat := fun q => ⟨q, 0⟩
     toNat := fun a => ratToNat a.v
     le := fun a b => some (decide (a.v ≤ b.v))
@@ -98,6 +101,7 @@ def floatA : AOps Float :=
     log := fun x => some x.log
     sqrt := fun x => some x.sqrt
     conj := id
+    absv := Float.abs
     ofRat := ratToFloat
     toNat := fun x => if x ≥ 0.0 ∧ x.floor == x then some x.toUInt64.toNat else none
     le := fun a b => some (decide (a ≤ b))
